@@ -1,5 +1,5 @@
 """Human-written level text per claimed property (consumed by gen_manifest.py)."""
-HOOK_COMMITS = ["e648131", "c2c8839", "e6e5513"]
+HOOK_COMMITS = ["e648131", "c2c8839", "e6e5513", "64250c5"]
 NOT_YET = {}
 META = {
     "C28": {
@@ -86,5 +86,10 @@ META = {
         "text": "Invariant Cons (for every descriptor the kernel epoll entry exists exactly when a read or write interest is recorded, with exactly those interests) proved initial and preserved by add/del read/write, del, close and event delivery, hence for every history (C21_history); every epoll_ctl issued under the invariant succeeds; after close the number has no record and no kernel entry. Tie: every operation on a real poller, kernel table from /proc/self/fdinfo compared with the model's and with the union of outstanding interests.",
         "note": "Trusted: as C20. One poller only (multi-loop sharing of the process-wide records is not covered); shutdown() is represented by the del_read/del_write it performs.",
         "design_ref": "DESIGN.md §4 C21",
+    },
+    "C23": {
+        "text": "Theorems over every nest of maybe_grow_with calls (any depths, red-zone/size pairs, remaining-stack readings, panic and catch placement), for the coroutine and the plain-thread path: registered segments after a call equal those before it, on return and on unwinding (C23_restored); every callback starts with at least its red zone available (C23_room); the callback's value is returned (C23_value); growth decisions after a caught panic are those of a fresh state (C23_recursion_after_panic); the pre-fix thread path refuted by a witness. Tie: real nested calls with real frames inside a coroutine and on a plain thread, panics caught at generated levels; per call the depth before/inside/after, growth and room observed and compared.",
+        "note": "Trusted: Lean kernel; model; stack switching and page rounding; the harness' stack measurements. The property's 'deep recursion keeps working' is exercised up to 5 nested growths per chain, several chains per thread.",
+        "design_ref": "DESIGN.md §4 C23",
     },
 }
